@@ -675,14 +675,20 @@ def gen_l2_case(rng):
     dim = rng.choice([2, 3])
     nb = rng.randint(1, 3)
     v0 = []
-    wide = rng.random() < 0.6
-    scales = [2.0 ** rng.choice(SCALE_EXPS) if wide else 1.0 for _ in range(nb)]
+    wide = rng.random() < 0.75
+    # block magnitudes 2^-60 .. 2^20: the decade band (1e-12, 1e-8] (2^-38 .. 2^-27), both
+    # sides of the code's 1e-12 switch (2^-40 .. 2^-38) and far below it
+    smooth_only = rng.random() < 0.5      # all blocks above the switch: oracle applies
+    exps = L2_EXPS_ABOVE if smooth_only else L2_EXPS
+    scales = [2.0 ** rng.choice(exps) if wide else 1.0 for _ in range(nb)]
     if wide and nb >= 2 and rng.random() < 0.7:       # a huge and a tiny block side by side
         i, j = rng.sample(range(nb), 2)
-        scales[i], scales[j] = 2.0 ** 23, 2.0 ** rng.choice([-23, -22, -20])
+        scales[i], scales[j] = 2.0 ** rng.choice([20, 23]), 2.0 ** rng.choice([-36, -34, -33, -30, -28, -23])
+    elif wide and rng.random() < 0.5:
+        scales[rng.randrange(nb)] = 2.0 ** rng.choice([-36, -35, -34, -33, -31, -30, -28])
     for b_ in range(nb):
         s = dy(rng, -3, 3, 4, nonzero=True) * scales[b_]
-        pat = rng.choice(["axis", "axis", "pyth", "pyth", "zero", "onezero"])
+        pat = rng.choice(["axis", "axis", "pyth", "pyth", "onezero"] + ([] if smooth_only else ["zero"]))
         if pat == "axis":
             blk = [0.0] * dim
             blk[rng.randrange(dim)] = s
@@ -712,9 +718,11 @@ def gen_l2_case(rng):
         T = ["sub", ["var", 1], T]
     elif w < 0.7:
         T = ["matmul", {"shape": [1, nb], "rows": [[[j, 1.0] for j in range(nb)]], "fmt": "csr"}, T]
-    return {"kind": "rat", "vars": X, "tree": T, "kink": 1e-9, "big": 1e12}
+    return {"kind": "rat", "vars": X, "tree": T, "kink": 1.2e-12, "big": 1e12}
 
 
+L2_EXPS_ABOVE = [-36, -35, -34, -33, -31, -30, -28, -27, -26, -23, -10, 0, 0, 10, 20]
+L2_EXPS = L2_EXPS_ABOVE + [-60, -45, -41, -40, -39, -38, -37]
 SCALE_EXPS = [-23, -20, -10, -3, 0, 0, 3, 10, 20, 23]
 
 
@@ -980,6 +988,13 @@ DIRECTED = [
      "tree": ["mul", ["l2", 3, ["var", 0]], ["var", 1]], "kink": 1e-9, "big": 1e12},
     {"kind": "rat", "vars": [[8388608.0, -1.1920928955078125e-07, 2.0], [1.0, -4194304.0, 2.384185791015625e-07]],
      "tree": ["mul", ["fun", "abs", None, ["var", 0]], ["max", ["var", 0], ["var", 1]]], "kink": 1e-12, "big": 1e16},
+    # l2_norm: vectors in the band (1e-12, 1e-8], just above / below the 1e-12 switch, 2^-60
+    {"kind": "rat", "vars": [[3 * 2.0 ** -31, 4 * 2.0 ** -31, 1048576.0, 0.0], [1.0, 2.0]],
+     "tree": ["l2", 2, ["var", 0]], "kink": 1.2e-12, "big": 1e12},
+    {"kind": "rat", "vars": [[2.0 ** -34, 2 * 2.0 ** -34, 2 * 2.0 ** -34, 0.0, 2.0 ** -38, 0.0], [1.0, 2.0]],
+     "tree": ["mul", ["l2", 3, ["var", 0]], ["var", 1]], "kink": 1.2e-12, "big": 1e12},
+    {"kind": "rat", "vars": [[3 * 2.0 ** -43, 4 * 2.0 ** -43, 3 * 2.0 ** -60, 4 * 2.0 ** -60, 3 * 2.0 ** -42, 4 * 2.0 ** -42], [1.0, 2.0, 3.0]],
+     "tree": ["l2", 2, ["var", 0]], "kink": 1.2e-12, "big": 1e12},
     # safe_power: the Jacobian defect repaired in 7cefac836 (power -1 at 2.0 gave -4)
     {"kind": "sp", "x": [2.0, 0.5, 0.0, -1.5], "power": -1, "int_type": True, "zero_val": 7.0, "tol": 1e-8},
     {"kind": "sp", "x": [2.0, 0.5, 0.0625, 3.0], "power": 0.5, "int_type": False, "zero_val": 1.0, "tol": 0.125},
@@ -1202,9 +1217,9 @@ def tie_b_points(rng, per):
     for _ in range(per):
         dim = rng.choice([2, 3])
         nb = rng.choice([1, 2, 2, 3])
-        scales = [2.0 ** rng.choice(SCALE_EXPS) for _ in range(nb)]
+        scales = [2.0 ** rng.choice(SCALE_EXPS + L2_EXPS) for _ in range(nb)]
         if nb >= 2 and rng.random() < 0.7:
-            scales[0], scales[1] = 2.0 ** 23, 2.0 ** rng.choice([-23, -21])
+            scales[0], scales[1] = 2.0 ** 20, 2.0 ** rng.choice([-23, -28, -30, -33, -35])
             rng.shuffle(scales)
         blks = [[(dy(rng, -3, 3, 8, nonzero=True) if rng.random() < 0.65 else 0.0) * sc
                  for _ in range(dim)] for sc in scales]
